@@ -66,7 +66,7 @@ step = self.step + 1
         _, _, finit = s.method("LoggingCallbackStepState", "__init__")
         m = bind_args(finit, r[2], r[3])
         okz = all(nzi.canon(m.get(k, NONE)) == want for k, want in (("step", ("k", 0)), ("episode_return", ("k", 0)), ("episode_length", ("k", 0)),
-                                                                    ("episode_done", ("k", False)), ("average_return", ("k", 0)), ("average_length", ("k", 0))))
+                                                                    ("episode_done", ("kb", False)), ("average_return", ("k", 0)), ("average_length", ("k", 0))))
     s.ob("C19.1", "LoggingCallbackStepState.initial", okz, "accumulators start at zero / not-done", s.loc("LoggingCallbackStepState", "initial"),
          key="initial-zero", detail=show(r, maxlen=200))
     # ---------------------------------------------------------------- C19.2
@@ -189,7 +189,7 @@ step = self.step + 1
         s.ob("C19.5", con6, nz6.canon(sc[3]) == nz6.canon(want_xs), "the scan runs for max_steps steps (the step cap)", loc6, key="scan-cap",
              detail=show(sc[3], maxlen=120))
         init = sc[2]
-        ok_init = isinstance(init, tuple) and init[0] == "tuple" and len(init[1]) == 3 and nz6.canon(init[1][2]) == ("k", False) \
+        ok_init = isinstance(init, tuple) and init[0] == "tuple" and len(init[1]) == 3 and nz6.canon(init[1][2]) == ("kb", False) \
             and strip_keys(init[1][0]) == ("call", ("attr", envp, "initial"), (), (("key", KEY),))
         s.ob("C19.5", con6, ok_init, "the carry starts as (env.initial(), policy.reset(), done=False)", loc6, key="scan-init", detail=show(init, maxlen=200))
         body = sc[1]
